@@ -81,15 +81,20 @@ def run(ctx):
     ctx.assumptions = ['scipy.linalg.eig / lstsq / svd (LAPACK) are trusted and validated numerically',
                        'conjugate-closed eigenpairs (so that real(..) loses nothing) are validated, not proved']
     ctx.proof_obligations('Properties.C13', THEOREMS)
-    for i in range(ctx.n(150, 2500)):
-        why, case, note = check(ctx)
-        ctx.count(case['estimator'].split('(')[0])
-        if note:
-            ctx.count('note:' + note[:40])
-        ctx.record_case({k: v for k, v in case.items() if k != 'X'}, True)
-        if why:
-            ctx.fail(why, case, {'estimator': case['estimator'].split('(')[0]})
-    return ctx.finish('other', None)
+    def cases(n, stop_at_first=False):
+        for i in range(n):
+            why, case, note = check(ctx)
+            ctx.count(case['estimator'].split('(')[0])
+            if note:
+                ctx.count('note:' + note[:40])
+            ctx.record_case({k: v for k, v in case.items() if k != 'X'}, True)
+            if why:
+                ctx.fail(why, case, {'estimator': case['estimator'].split('(')[0]})
+                if stop_at_first:
+                    return
+    cases(ctx.n(150, 2500))
+    # a broken proof with no failing fit so far: a larger population of fits (same oracle)
+    return ctx.finish('other', lambda c: cases(1500, True))
 
 
 def replay(ctx, path):
